@@ -464,3 +464,126 @@ def sigma6(model, profile='quick'):
                 continue
             out.append((step, m2))
     return out
+
+
+# ---------------------------------------------------------------------------
+# growth chains: one long history whose every prefix is checked (boundary sweeps)
+
+def chain_files(cfg, n, isolen, dkey='/', rrlen=4, jlen=4, ulen=4, order='lifo', prefix='F'):
+    """n files added one by one to one directory (identifier length isolen), then removed one by one."""
+    lvl = cfg.get('level', 1)
+    d = DIRS[dkey]
+    adds, rms = [], []
+    for i in range(n):
+        stem = ('%s%04d' % (prefix, i))
+        if lvl == 1:
+            base = stem[:8].ljust(min(isolen, 8), 'X')[:8]
+            iso = base + '.;1'
+        else:
+            iso = stem.ljust(max(isolen - 3, 5), 'X') + '.;1'
+        kw = {'content': 'c1s%d' % (i % 5), 'iso_path': join(d['iso'], iso)}
+        if cfg.get('rr'):
+            kw['rr_name'] = stem.lower().ljust(rrlen, 'r')
+        if cfg.get('joliet'):
+            kw['joliet_path'] = join(d['joliet'], stem.lower().ljust(jlen, 'j'))
+        if cfg.get('udf'):
+            kw['udf_path'] = join(d['udf'], stem.lower().ljust(ulen, 'u'))
+        adds.append(['add_fp', kw])
+        rms.append(['rm_file', {'iso_path': kw['iso_path']}])
+    if order == 'lifo':
+        rms.reverse()
+    pre = []
+    if dkey != '/':
+        pre = [add_dir(cfg, dkey)] if dkey == 'D1' else [add_dir(cfg, 'D1'), add_dir(cfg, dkey)]
+    return pre + adds + rms
+
+
+def chain_dirs(cfg, n, isolen, order='lifo', prefix='P', jlen=4, ulen=4):
+    lvl = cfg.get('level', 1)
+    adds, rms = [], []
+    for i in range(n):
+        stem = '%s%04d' % (prefix, i)
+        iso = stem[:8] if lvl == 1 else stem.ljust(isolen, 'Q')
+        kw = {'iso_path': '/' + iso}
+        if cfg.get('rr'):
+            kw['rr_name'] = stem.lower()
+        if cfg.get('joliet'):
+            kw['joliet_path'] = '/' + stem.lower().ljust(jlen, 'q')
+        if cfg.get('udf'):
+            kw['udf_path'] = '/' + stem.lower().ljust(ulen, 'q')
+        adds.append(['add_directory', kw])
+        rms.append(['rm_directory', dict(kw)])
+    if order == 'lifo':
+        rms.reverse()
+    return adds + rms
+
+
+def chains_for(cfg, tier):
+    """(name, [ops]) growth chains for a configuration."""
+    out = []
+    lvl = cfg.get('level', 1)
+    big = tier == 'thorough'
+    n = 100 if big else 50
+    # ISO9660 directory records: 33 + len (+pad); 44-byte records fill a sector exactly with 45 entries
+    out.append(('files-11', chain_files(cfg, n, 11)))
+    if big:
+        out.append(('files-11-fifo', chain_files(cfg, n, 11, order='fifo')))
+        out.append(('files-sub', chain_files(cfg, 60, 11, dkey='D2')))
+    if lvl > 1:
+        out.append(('files-long', chain_files(cfg, 24 if big else 14, 200, jlen=60, ulen=200, rrlen=100)))
+    if cfg.get('rr'):
+        out.append(('files-rr-ce', chain_files(cfg, 20 if big else 17, 11, rrlen=240, prefix='R')))
+    if cfg.get('udf') or cfg.get('joliet'):
+        out.append(('files-jolu', chain_files(cfg, 60 if big else 40, 11, jlen=64, ulen=90)))
+    if cfg.get('udf'):
+        # UDF file identifiers are 38 + len (4-aligned) bytes after a 40-byte parent entry: a 1-character name
+        # (40 bytes) followed by 8-character names (48 bytes) puts the 43rd identifier exactly on a sector boundary
+        ch = chain_files(cfg, 48, 11, ulen=8, prefix='V')
+        ch[0][1]['udf_path'] = '/a'
+        out.append(('udf-align', ch))
+    out.append(('dirs', chain_dirs(cfg, (280 if lvl == 1 else 24) if big else (24 if lvl > 1 else 60), 207 if lvl > 1 else 8, jlen=64, ulen=40)))
+    if big and lvl > 1:
+        out.append(('dirs-fifo', chain_dirs(cfg, 24, 207, order='fifo', jlen=64, ulen=40)))
+    return out
+
+
+def sigma_ce(model, profile='quick'):
+    """
+    Continuation-area allocator alphabet (Rock Ridge only): directories and files whose Rock Ridge
+    names need a continuation entry of two adjacent sizes, added and removed so that holes of every
+    size open and are refilled by an entry of the same / the next size.
+    """
+    cfg = model.cfg
+    if not cfg.get('rr'):
+        return []
+    lens = (200, 201) if profile == 'quick' else (200, 201, 202)
+    dirs = ('C1', 'C2', 'C3') if profile == 'quick' else ('C1', 'C2', 'C3', 'C4')
+    cand = []
+    for dname in dirs:
+        for ln in lens:
+            kw = {'iso_path': '/' + dname, 'rr_name': (dname.lower() + '_').ljust(ln, 'n')}
+            if cfg.get('joliet'):
+                kw['joliet_path'] = '/' + dname.lower()
+            if cfg.get('udf'):
+                kw['udf_path'] = '/' + dname.lower()
+            cand.append([['add_directory', kw]])
+        kw = {'iso_path': '/' + dname}
+        if cfg.get('joliet'):
+            kw['joliet_path'] = '/' + dname.lower()
+        if cfg.get('udf'):
+            kw['udf_path'] = '/' + dname.lower()
+        cand.append([['rm_directory', kw]])
+    if profile != 'quick':
+        for ln in lens[:2]:
+            kw = {'content': 'c1', 'iso_path': '/CF.;1', 'rr_name': 'cf_'.ljust(ln, 'n')}
+            cand.append([['add_fp', kw]])
+        cand.append([['rm_file', {'iso_path': '/CF.;1'}]])
+    out = []
+    for step in cand:
+        m2 = enabled(model, step)
+        if m2 is not None:
+            out.append((step, m2))
+    return out
+
+
+CFG_RR = [mk(1, rr='1.09'), mk(2, rr='1.10', xa=True), mk(3, rr='1.12'), mk(3, joliet=3, rr='1.12', udf=True)]
